@@ -24,17 +24,16 @@ func newWorkHeap(length int) *workHeap {
 	}
 }
 
-func (wh workHeap) AdjustPriorities() {
-	for _, workItem := range wh.items {
-		wi := workItem
+// AdjustPriorities re-evaluates the adjust function of every queued work item and then restores the heap order.
+// (Re-ordering while iterating, as a heap.Fix per changed item does, moves items across the iteration point so that
+// some are asked twice and others not at all.)
+func (wh *workHeap) AdjustPriorities() {
+	for _, wi := range wh.items {
 		if wi.adjustPriority != nil {
-			newPriority := wi.adjustPriority()
-			if newPriority != wi.priority {
-				wi.priority = newPriority
-				heap.Fix(&wh, wi.position)
-			}
+			wi.priority = wi.adjustPriority()
 		}
 	}
+	heap.Init(wh)
 }
 
 // Len returns the length of the workHeap
